@@ -269,6 +269,43 @@ def listener_events(shape):
 LISTENER_SHAPES = ["all", "starts", "starts+ends", "records", "tests"]
 
 
+def _file_backend(name):
+    if name == "json":
+        from lemoncheesecake.reporting.backends.json_ import JsonBackend
+        return JsonBackend()
+    if name == "xml":
+        from lemoncheesecake.reporting.backends.xml import XmlBackend
+        return XmlBackend()
+    if name == "junit":
+        from lemoncheesecake.reporting.backends.junit import JunitBackend
+        return JunitBackend()
+    raise ValueError(name)
+
+
+_SAVED_FILES = {"json": "report.js", "xml": "report.xml", "junit": "report-junit.xml"}
+
+
+def _read_saved(name, report_dir):
+    """the saved file as its readers see it: json / xml through the REAL `load_report` (then the rank-sorted accessors);
+    junit: the (name, failures / errors / skipped) of every <testcase>, in file order"""
+    path = os.path.join(report_dir, _SAVED_FILES[name])
+    out = {"exists": os.path.exists(path), "view": None, "error": None}
+    if not out["exists"]:
+        return out
+    try:
+        if name == "junit":
+            import xml.etree.ElementTree as ET
+            root = ET.parse(path).getroot()
+            out["view"] = [[ts.get("name"), [[tc.get("name"), sorted(c.tag for c in tc)] for tc in ts.iter("testcase")]]
+                           for ts in root.iter("testsuite")]
+        else:
+            from lemoncheesecake.reporting import load_report
+            out["view"] = R.nf_report(load_report(path))
+    except Exception as e:
+        out["error"] = "%s: %s" % (type(e).__name__, str(e)[:300])
+    return out
+
+
 def extract_graph(tasks):
     idx = {id(t): i for i, t in enumerate(tasks)}
     out = []
@@ -320,7 +357,8 @@ class _ConsoleSys:
 
 
 def run_project(project, strategy="off", gate_seed=0, interrupt_at=None, backend_fault=None, watchdog=30.0,
-                gate_watchdog=10.0, stall=8.0, builder=None, console=True, listeners=None):
+                gate_watchdog=10.0, stall=8.0, builder=None, console=True, listeners=None, file_backends=None,
+                saving=None):
     """
     strategy      "off" | "fifo" | "lifo" | "random"   gate controller (obs.schedrec)
     interrupt_at  None | ["get", k]                    KeyboardInterrupt instead of the k-th blocking completed-queue get
@@ -333,6 +371,12 @@ def run_project(project, strategy="off", gate_seed=0, interrupt_at=None, backend
     listeners     None | list of shapes (LISTENER_SHAPES): further reporting sessions, all of ONE class (`SubsetSession`) whose
                   `on_<event>` handlers are set per instance, attached after the recording backend in the given order;
                   obs["listeners"] = [{"shape", "events", "got": [[event index, event name]]}], obs["fire_names"]
+    file_backends None | list of "json" / "xml" / "junit": the REAL file backends, attached after the recording backend (and the
+                  extra listeners) as `lcc run --reporting json junit` does, writing into the run's scratch report directory
+    saving        None | "at_each_test" | "at_each_failed_test" | "at_each_log" | "at_each_suite" | "at_end_of_tests": the
+                  `--save-report` expression, turned into a strategy by the real `make_report_saving_strategy`
+                  obs["saved"] = {backend: {"view": nf_report(load_report(file)) | None, "error": str | None, "exists": bool}}
+                  — the file as the real `load_report` reads it back, before the scratch directory is removed
     console       attach the REAL console backend too (as `lcc run` does by default), after the recording backend: its handlers run
                   on the same event-handling thread as the report writer's — sequential flavour with 1 worker thread, parallel
                   flavour otherwise; what it prints is discarded (module globals `sys` / `print` of console.py replaced for the run)
@@ -407,9 +451,15 @@ def run_project(project, strategy="off", gate_seed=0, interrupt_at=None, backend
             b = SubsetBackend(listener_events(shape))
             side["listeners"].append((shape, b.session))
             backends.append(b)
+        for name in file_backends or []:
+            backends.append(_file_backend(name))
         if console:
             backends.append(CON.ConsoleBackend())
-        session = Session.create(em, backends, tmp, None, nb_threads=n)
+        strategy = None
+        if saving:
+            from lemoncheesecake.reporting.savingstrategy import make_report_saving_strategy
+            strategy = make_report_saving_strategy(saving)
+        session = Session.create(em, backends, tmp, strategy, nb_threads=n)
         side["session"] = session
         try:
             ret = LR.run_suites(suites, registry, session, force_disabled=project["force_disabled"],
@@ -468,6 +518,8 @@ def run_project(project, strategy="off", gate_seed=0, interrupt_at=None, backend
                 obs["report_view"] = R.nf_report(session.report)     # what every reader sees: rank-sorted REAL accessors
             except Exception as e:
                 obs["report_error"] = "%s: %s" % (type(e).__name__, e)
+        if file_backends:
+            obs["saved"] = {name: _read_saved(name, tmp) for name in file_backends}
         att = []
         adir = os.path.join(tmp, "attachments")
         if os.path.isdir(adir):
